@@ -20,7 +20,7 @@ def parse(name):
         return res
     cur = None
     for ln in open(p):
-        m = re.match(r"== ([CEFG]\d+-[A-Z])", ln)
+        m = re.match(r"== ([CEFGH]\d+-[A-Z])", ln)
         if m:
             cur = m.group(1)
             res.setdefault(cur, {})
@@ -39,11 +39,13 @@ for k, v in parse("matrix_r5.txt").items():
     final[k] = v
 for k, v in parse("matrix_r6.txt").items():
     final[k] = v
+for k, v in parse("matrix_r7.txt").items():
+    final[k] = v
 for name in ("matrix_fix.txt", "matrix_fix5.txt", "matrix_fix6.txt"):
     for k, v in parse(name).items():
         final.setdefault(k, {}).update(v)
 first = {}
-for name in ("matrix3.txt", "matrix4.txt", "matrix_r4.txt", "matrix_r5.txt", "matrix_r6.txt"):
+for name in ("matrix3.txt", "matrix4.txt", "matrix_r4.txt", "matrix_r5.txt", "matrix_r6.txt", "matrix_r7.txt"):
     for k, v in parse(name).items():
         first[k] = v
 summ = json.load(open(os.path.join(V, "seeded", "summaries.json")))
@@ -55,10 +57,10 @@ for d in sorted(os.listdir(os.path.join(V, "seeded"))):
     mp = os.path.join(dd, "meta.json")
     meta = json.load(open(mp)) if os.path.exists(mp) else {}
     notes = open(os.path.join(dd, "author_notes.md")).read() if os.path.exists(os.path.join(dd, "author_notes.md")) else ""
-    if d.startswith("E") or d.startswith("G"):
+    if d[0] in "EGH":
         m = re.search(r"PROPERTY:\s*(C\d+)", notes)
         prop = m.group(1) if m else "?"
-        rnd = 4 if d.startswith("E") else 6
+        rnd = {"E": 4, "G": 6, "H": 7}[d[0]]
     elif d.startswith("F"):
         prop = "C" + d[1:3]
         rnd = 5
